@@ -484,6 +484,8 @@ def _set_tbf(mode):
 
 def _run_job(job):
     """Worker: every case of the listed (family, function index) items."""
+    if job.get("extra"):
+        return ("extra",) + tuple(_extra_job(job))
     E = _env()
     fam_by_name = {f["name"]: f for f in families(job["tier"])}
     fns_by_name = {n: family_functions(f) for n, f in fam_by_name.items()}
@@ -575,6 +577,131 @@ def _run_job(job):
     return st, viols, samples
 
 
+
+# ------------------------------------------------------------------ extra families: call sequences, keyword-only parameters, colliding names
+# Not expressible in the product machinery above: (i) keyword-only array parameters, called in sequence on ONE decorated function
+# so that an accepted call precedes a rejected one with the same positional arguments (eager first, traced first);
+# (ii) parameter NAMES that are also used as axis names inside symbolic expressions.
+
+X_DIMS = ["a", "a b", "*v a"]
+X_SHAPES = [(2,), (3,), (2, 2)]
+X_TRANSFORMS = ["eval_shape", "jit", "grad"]
+
+
+def _extra_job(job):
+    E = _env()
+    _set_tbf("off")
+    jt, jax = E["jt"], E["jax"]
+    import jax.numpy as jnp
+    import itertools as it
+
+    tier = job["tier"]
+    st = dict(evaluations=0, eager=0, mismatches=0)
+    viols, samples = [], []
+
+    def chain(e):
+        seen = set()
+        while e is not None and id(e) not in seen:
+            seen.add(id(e))
+            yield e
+            e = e.__cause__ or e.__context__
+
+    leak_types = tuple(getattr(jax.errors, n) for n in ("ConcretizationTypeError", "TracerBoolConversionError", "TracerArrayConversionError", "TracerIntegerConversionError") if hasattr(jax.errors, n))
+
+    def outcome(thunk):
+        try:
+            thunk()
+            return "ok"
+        except Exception as e:  # noqa: BLE001
+            leak = any(isinstance(x, leak_types) for x in chain(e))
+            return f"{type(e).__module__.split('.')[0]}.{type(e).__name__}" + (":tracer-forced" if leak else "")
+
+    def fill(shape, how):
+        n = 1
+        for d in shape:
+            n *= d
+        if how == "zeros":
+            return jnp.zeros(shape, jnp.float32)
+        if how == "arange":
+            return jnp.arange(n, dtype=jnp.float32).reshape(shape) + 2.0
+        return jnp.full(shape, jnp.nan, jnp.float32)
+
+    def traced(F, call, shapes, tr):
+        sds = [jax.ShapeDtypeStruct(sh, jnp.float32) for sh in shapes]
+
+        def h(*xs):
+            return call(F, *xs)
+
+        if tr == "eval_shape":
+            return outcome(lambda: jax.eval_shape(h, *sds))
+        if tr == "jit":
+            return outcome(lambda: jax.make_jaxpr(jax.jit(h))(*sds))
+        return outcome(lambda: jax.eval_shape(jax.grad(lambda *xs: jnp.sum(h(*xs))), *sds))
+
+    def report(kind, desc, what):
+        st["mismatches"] += 1
+        if len(viols) < 25:
+            viols.append(Violation(key=f"C17:extra:{kind}:{desc['family']}:{desc['tc']}:{desc['sig']}", what=what, replay=dict(extra=True, **desc)).to_json())
+
+    def make(tc, src, annots):
+        ns = {"jnp": jnp}
+        exec(src, ns)
+        f = ns["f"]
+        f.__annotations__ = annots
+        return jt.jaxtyped(typechecker=E["tcs"][tc])(f)
+
+    A = lambda d: jt.Float[jax.Array, d]
+    for tc in job["tcs"]:
+        # (i) keyword-only parameter tied to the positional one.  For every ordered pair of shape
+        # tuples (P, Q) on a FRESH decorated function: one warm-up call with P in one mode (eager or
+        # traced), then Q is evaluated eagerly and under every transformation - the verdicts on Q
+        # must agree whatever happened before and in whichever mode.
+        for d0, d1 in job["dimpairs"]:
+            src = "def f(x0, *, x1):\n    return jnp.zeros(()) + 0 * (jnp.sum(x0) + jnp.sum(x1))\n"
+            call = lambda F, a, b: F(a, x1=b)
+            for warm in ("eager", "traced"):
+                for P in it.product(X_SHAPES, repeat=2):
+                    for Q in it.product(X_SHAPES, repeat=2):
+                        F = make(tc, src, {"x0": A(d0), "x1": A(d1)})
+                        desc = dict(family="kwonly", tc=tc, sig=f"({d0}|*,{d1})", warm=warm, P=[list(x) for x in P], Q=[list(x) for x in Q])
+                        if warm == "eager":
+                            w = outcome(lambda: call(F, fill(P[0], "arange"), fill(P[1], "arange")))
+                        else:
+                            w = traced(F, call, P, "eval_shape")
+                        e = [outcome(lambda: call(F, fill(Q[0], h), fill(Q[1], h))) for h in FILLS[:2]]
+                        st["eager"] += 2
+                        t = {tr: traced(F, call, Q, tr) for tr in X_TRANSFORMS}
+                        st["evaluations"] += len(t)
+                        if len(set(e)) != 1:
+                            report("filling", desc, f"kw-only f{desc['sig']} after a {warm} call on {P}: eager verdict on {Q} depends on the element values: {e}")
+                        for tr, r in t.items():
+                            if r != e[0] or "tracer-forced" in r:
+                                report("verdict", dict(desc, tr=tr), f"kw-only f{desc['sig']} after a {warm} call on {P} ({w}): {Q} under {tr} -> {r}, eagerly -> {e[0]}")
+                        if len(samples) < 1 and e[0] == "ok" and w == "ok" and P != Q:
+                            samples.append(dict(kind="kwonly_sequence", fn=f"f{desc['sig']}", warm=warm, P=desc["P"], Q=desc["Q"], eager=e, traced=t))
+        # (ii) parameter names that are also axis names of symbolic expressions (unbound as axes)
+        collide = [
+            ("def f(k, y):\n    return jnp.zeros(()) + 0 * (jnp.sum(k) + jnp.sum(y))\n", {"k": A("n"), "y": A("k+1")}, "(k:n,y:k+1)"),
+            ("def f(k, y):\n    return y\n", {"k": A("n"), "y": A("m"), "return": A("k+1")}, "(k:n,y:m)->k+1"),
+            ("def f(n, k):\n    return jnp.zeros(()) + 0 * (jnp.sum(n) + jnp.sum(k))\n", {"n": A("k"), "k": A("n*1")}, "(n:k,k:n*1)"),
+        ]
+        for src, ann, sig in collide if job.get("collide", True) else []:
+            F = make(tc, src, ann)
+            call = lambda F, a, b: F(a, b)
+            for s0, s1 in it.product([(1,), (2,), (3,)], repeat=2):
+                desc = dict(family="collide", tc=tc, sig=sig, shapes=[list(s0), list(s1)])
+                e = [outcome(lambda: call(F, fill(s0, h), fill(s1, h))) for h in FILLS]
+                st["eager"] += len(FILLS)
+                if len(set(e)) != 1:
+                    report("filling", desc, f"f{sig} shapes {s0},{s1}: eager verdict depends on the element values: {dict(zip(FILLS, e))}")
+                for tr in X_TRANSFORMS:
+                    r = traced(F, call, (s0, s1), tr)
+                    st["evaluations"] += 1
+                    if r != e[0] or "tracer-forced" in r:
+                        report("verdict", dict(desc, tr=tr), f"f{sig} shapes {s0},{s1} under {tr}: traced -> {r}, eager -> {e[0]}")
+    return st, viols, samples
+
+
 # ------------------------------------------------------------------ driver
 
 
@@ -602,14 +729,29 @@ def run(ctx):
     jobs = [dict(tier=ctx.tier, items=b[1]) for b in bins if b[1]]
     r = ctx.seed % len(jobs)
     rot = jobs[r:] + jobs[:r]
-    outs = common.pmap(_run_job, rot)
+    import itertools as _it
+
+    xpairs = list(_it.product(X_DIMS, repeat=2))
+    xjobs = [dict(extra=True, tier=ctx.tier, tcs=[tc], dimpairs=xpairs[i::3], collide=(i == 0)) for tc in TCS for i in range(3)]
+    outs = common.pmap(_run_job, xjobs + rot)
+    xouts, outs = outs[: len(xjobs)], outs[len(xjobs):]
     outs = outs[len(jobs) - r:] + outs[: len(jobs) - r] if r else outs  # back to the seed-independent order
     stats = common.merge_counts(o[0] for o in outs)
     per_family = stats["per_family"]
     if stats["evaluations"] != expected or stats["functions"] != len(items):
         raise common.HarnessError(f"planned {expected} evaluations of {len(items)} functions, workers reported {stats['evaluations']} of {stats['functions']}")
     viols = [Violation(**v) for o in outs for v in o[1]]
+    x_st = common.merge_counts(o[1] for o in xouts)
+    x_viols = [v for o in xouts for v in o[2]]
+    x_samples = [x for o in xouts for x in o[3]][:1]
+    viols += [Violation(**v) for v in x_viols]
+    stats["evaluations"] += x_st["evaluations"]
+    stats["eager_evaluations"] += x_st["eager"]
+    stats["nontrivial"] += x_st["evaluations"]
+    per_family["extra_kwonly_and_colliding_names"] = dict(evaluations=x_st["evaluations"], eager=x_st["eager"], dims=X_DIMS, shapes=[list(x) for x in X_SHAPES], transformations=X_TRANSFORMS)
     by_kind = {}
+    for sx in x_samples:
+        by_kind.setdefault(sx["kind"], []).append(sx)
     for o in outs:
         for s in o[2]:
             by_kind.setdefault(s["kind"], []).append(s)
@@ -667,6 +809,12 @@ def run(ctx):
 
 
 def replay(rep):
+    if rep.get("extra"):
+        import itertools as _it
+
+        st, viols, _ = _extra_job(dict(tier="quick", tcs=[rep["tc"]], dimpairs=list(_it.product(X_DIMS, repeat=2))))
+        mine = [v for v in viols if v["replay"].get("sig") == rep["sig"] and v["replay"].get("family") == rep["family"]]
+        return dict(violations=[v["what"] for v in mine][:5], violates=bool(mine))
     E = _env()
     _set_tbf(rep.get("tbf", "off"))
     spec = (rep["fn"][0], rep["fn"][1], rep["fn"][2])
